@@ -69,6 +69,7 @@ structure State where
   iws : Int := 65536
   cur : Nat := 0
   adv : Nat := 200
+  inGoAway : Bool := false -- a GOAWAY has been scheduled (graceful shutdown)
   kick : Bool := false     -- scheduleFrameWrite has been called since the last event
   opened : List Nat := []  -- ghost
   deriving Repr
@@ -82,6 +83,7 @@ inductive Ev
   | iws (val : Nat)
   | ping (id : Nat)
   | hcmd (id : Nat) (c : Cmd)
+  | graceful              -- bfe closes http.Server.CloseNotifyCh: serve calls goAway(GoAwayOK)
   deriving Repr
 
 inductive Out
@@ -91,6 +93,7 @@ inductive Out
   | wu (id n : Nat)
   | reply (id : Nat) (fin : Bool)
   | data (id len : Nat) (fin : Bool)
+  | read (id n : Nat)     -- not a frame: the handler of stream `id` got n bytes from its request body
   deriving Repr, DecidableEq
 
 inductive Status | run | closed | stop | panic
@@ -143,7 +146,10 @@ def close (s : State) (id : Nat) : State :=
 def reset (s : State) (id code : Nat) : Res :=
   { st := { close s id with kick := true }, out := [.rst id code] ++ closeOut s id }
 
-def goAway (s : State) (code : Nat) : Res := { st := s, out := [.goaway s.maxId code], status := .stop }
+/-- `goAway(code)` with an error code: nothing if a GOAWAY was already scheduled (`if sc.inGoAway { return }`),
+    else GOAWAY is sent, nothing else is written any more and the connection closes 250 ms later (the script stops). -/
+def goAway (s : State) (code : Nat) : Res :=
+  if s.inGoAway then { st := s } else { st := s, out := [.goaway s.maxId code], status := .stop }
 
 /-- all live streams get `flow.add(growth)`; `none` = one of them overflowed. -/
 def growAll : List St → Int → Option (List St)
@@ -173,6 +179,7 @@ def step (s0 : State) (e : Ev) : Res :=
   match e with
   | .syn id fin meth cl =>
     if id = 0 then { st := s }          -- the client's own writer refuses stream id 0: nothing is sent
+    else if s.inGoAway then { st := s }  -- processSynStream ignores new streams once GOAWAY is scheduled
     else if id % 2 ≠ 1 ∨ id < s.maxId then goAway s 1
     else if id = s.maxId then reset s id 1
     else
@@ -239,6 +246,10 @@ def step (s0 : State) (e : Ev) : Res :=
   | .ping id => if id = 0 ∨ id % 2 = 0 then { st := s } else { st := { s with kick := true }, out := [.ping id] }
   | .hcmd id c =>
     { st := updH s id fun h => { h with queue := h.queue ++ [c] } }
+  | .graceful =>
+    -- goAway(GoAwayOK): GOAWAY(last stream, OK) is sent first, streams in progress go on (reads, writes, windows)
+    if s.inGoAway then { st := s }
+    else { st := { s with inGoAway := true, kick := true }, out := [.goaway s.maxId 0] }
 
 /-- what the scheduler may take for a DATA frame of stream `st` now (`takeFrom`) -/
 def allowed (s : State) (st : St) : Int :=
@@ -268,7 +279,7 @@ def microH (s : State) (st : St) (h : H) : Option (State × List Out) :=
             { x with buf := x.buf - k, inflow := if x.isOpen then (flowAdd x.inflow k).getD x.inflow else x.inflow }
           else x
         let s3 := if n - k = 0 then popCmd s2 h.id else setHead s2 h.id (.read (n - k))
-        some (s3, [.wu 0 k] ++ (if st.isOpen then [.wu h.id k] else []))
+        some (s3, [.read h.id k, .wu 0 k] ++ (if st.isOpen then [.wu h.id k] else []))
       else if st.eof then some (popCmd s h.id, [])
       else none
     | .write n :: _ =>
